@@ -596,6 +596,10 @@ def corpus():
         {**base, 'cols': c1, 'flags': {**fl, 'sub': [[False, 's', 't'], [False, 's', 'm']], 'noise': True}},
         {**base, 'cols': [['m', ['a,,b', '-', 'a-']], ['n', ['1', '2.5', '3']]],
          'flags': {**fl, 'explode': ['m', 'm'], 'transformers': 'minimal', 'numeric': ['n'], 'noise': True, 'heuristic': 'Constant'}},
+        # two DIFFERENT value pairs whose '&'-joined renderings coincide ('x&y' & 'z'  vs  'x' & 'y&z'): a two-sided sub-feature is the
+        # indicator of the PAIR
+        {**base, 'cols': [['a', ['x&y', 'x', 'x&y', 'x', 'w']], ['b', ['z', 'y&z', 'z', 'z', 'y&z']], ['label', ['0', '1', '0', '1', '1']]],
+         'flags': {**fl, 'sub': [[True, 'a', 'b']]}, 'index': 'str'},
     ]
 
 
